@@ -164,6 +164,16 @@ where
         if let Some(c) = display(p) {
             let ser = catch_unwind(AssertUnwindSafe(|| serde_json::to_string(p)));
             let want = serde_json::to_string(&c).expect("json string");
+            // any Serializer must receive exactly one string: a compact (not human-readable) one as well
+            for hr in [true, false] {
+                let r = catch_unwind(AssertUnwindSafe(|| serde::Serialize::serialize(p, crate::strser::StrOnly { human_readable: hr })));
+                let got = match r {
+                    Ok(Ok(s)) => json!(s),
+                    Ok(Err(e)) => json!({"refused": e.0}),
+                    Err(_) => json!({"panic": true}),
+                };
+                ctx.check("C16", "serialize hands the canonical string to any serializer as one string value", inst, got == json!(c), &json!(c), &got);
+            }
             match ser {
                 Ok(Ok(text)) => {
                     ctx.check("C16", "serialize is exactly the canonical string", inst, text == want, &json!(want), &json!(text));
@@ -246,6 +256,9 @@ fn judge(ctx: &mut Ctx, inst: &str, jd: &Value, transcribed: &Value, obs: &Value
             ctx.count("judged_error_class");
             let exp = json!({"ok": false, "err": jd["err"]});
             ctx.check("C05", "refused with the matching error", inst, obs == &exp, &exp, obs);
+            if inst == "Purl" && (jd["err"] == json!("UnsupportedType") || jd["err"] == json!("Parse:InvalidPackageType")) {
+                ctx.check("C15", "a type string that is not the name of a known type is never taken for one", inst, obs["ok"] == json!(false), &exp, obs);
+            }
         },
         "rej" => {
             ctx.count("judged_reject");
